@@ -596,7 +596,7 @@ class C19(Prop):
                     return f"ok {enc(t)} -"
                 res, want = probe
                 v = Real.evaluate(t, activation(res, 0))
-                got = "hit" if (not isinstance(v, tuple) and v == want) else "miss:" + decision(v)
+                got = "hit" if (type(v) is type(want) and v == want) else "miss:" + decision(v)
                 return f"ok {enc(t)} {got}"
             if k == "dur":
                 t = R.seconds_to_duration(c["n"]) if c["unit"] == "secs" else R.age_to_duration(c["n"])
@@ -874,8 +874,10 @@ class C19(Prop):
             if out.startswith("raise "):
                 return None     # no CEL emitted
             if c["op"] is None:
-                truthy = bool(c["r"]) if not c.get("missing") else False
-                want = truthy if c["value"] in ("present", "not-null") else (not truthy)
+                # Custodian's ValueFilter.match: absent <=> None, present <=> not None, not-null <=> truthy,
+                # empty <=> falsy (a missing key reads as None)
+                r = None if c.get("missing") else c["r"]
+                want = {"present": r is not None, "absent": r is None, "not-null": bool(r), "empty": not r}[c["value"]]
                 exp = "true" if want else "false"
                 if out != exp:
                     return (f"value: {c['value']} on resource {'without the key' if c.get('missing') else repr(c['r'])}: "
@@ -943,6 +945,9 @@ class C19(Prop):
             "glacier_pinned": lambda c: c.get("kind") == "table" and c.get("table") == "cross-account"
             and c.get("resource") == "glacier",
             "valueless_missing_key": lambda c: c.get("kind") == "clause" and c.get("op") is None and bool(c.get("missing")),
+            # an attribute that is there but falsy ("", 0, false, [], {}): present/absent are translated like not-null/empty
+            "present_is_truthiness": lambda c: c.get("kind") == "clause" and c.get("op") is None and not c.get("missing")
+            and c.get("value") in ("present", "absent") and c.get("r") is not None and not c.get("r"),
         }
 
 
